@@ -226,6 +226,21 @@ CHECKS["C02"] = (
     "5/C02",
 )
 
+CHECKS["C13"] = (
+    "model_checking",
+    "explicit-state BFS over operation histories on real engines with a differential fresh-engine oracle and structural digests",
+    "For 6 engines (Mamdani, Larsen with chained blocks, Takagi-Sugeno with Linear and a Function reading an input and "
+    "an earlier output, Tsukamoto, hybrid, lock-previous) all histories up to depth 4 (thorough 5) over 15 operations "
+    "(set inputs incl. NaN and a batch, process, restart, copy-and-switch, 4 edits, 4 toggle-and-restore) are explored "
+    "breadth-first, merging states on a deep structural digest of all live engines. At every process the outputs must "
+    "equal those of a freshly built engine with the same edits; after restart the digest must equal the fresh "
+    "engine's; after copy the object graphs must share no mutable object, internal references must point into the copy "
+    "and every later operation must leave the other engine's digest unchanged.",
+    "States are rebuilt by replaying their history on a fresh engine; the search is sharded by the first operation, so "
+    "`states` sums the distinct digests per shard; the lock-previous engine is exempt from the history-free clause.",
+    "5/C13",
+)
+
 REASON_NOT_BUILT = "check not built yet in this phase (planned in DESIGN.md section 5); no claim is made"
 
 
